@@ -122,8 +122,8 @@ class MediaRequestBase(RequestHandlerBase):
         if mode == 'live':
             try:
                 # remove the mehd box as this stream is not supposed to
-                # have a fixed duration
-                del atom.moov.mehd
+                # have a fixed duration. It is a child of the mvex box
+                del atom.moov.mvex.mehd
             except AttributeError:
                 pass
         data = atom.encode()
